@@ -88,8 +88,10 @@ def rat(m, e):
     return fractions.Fraction(v.numerator_as_long(), v.denominator_as_long())
 
 
-def h_site(cx, site, basic, T, concrete_caps=False):
+def h_site(cx, site, basic, T, concrete_caps=False, only_last=False, reload=False):
     env.install(cx)
+    if reload:
+        env.install_json(cx)
     import numpy as np
     import acnportal.acnsim.network.sites as S
 
@@ -99,6 +101,15 @@ def h_site(cx, site, basic, T, concrete_caps=False):
     for c in capnames:
         caps[c] = defaults[c] if concrete_caps else cx.real(c, lo=1, hi=2000)
     net = getattr(S, fname)(basic_evse=basic, **caps)
+    if reload:
+        # the site network after a round trip through the public to_json() / from_json()
+        import warnings
+        import acnportal.acnsim as _A
+
+        with warnings.catch_warnings():
+            warnings.simplefilter("ignore")
+            net = _A.ChargingNetwork.from_json(net.to_json())
+        cx.tag("site:reloaded")
     cx.tag("site:" + site)
     ids = list(net.station_ids)
     doc = docf(ids)
@@ -122,7 +133,8 @@ def h_site(cx, site, basic, T, concrete_caps=False):
     cx.check("every_evse_behind_a_transformer", covered == set(ids), note=str(sorted(set(ids) - covered)))
     # ---- symbolic schedule, real feasibility check
     maxp = [float(v) for v in net.max_pilot_signals]
-    X = [[cx.real("x%d_%d" % (j, t), lo=0, hi=maxp[j]) for t in range(T)] for j in range(n)]
+    # only_last: a long schedule (hundreds of periods) that is idle except in its LAST period, which is symbolic
+    X = [[(0 if (only_last and t < T - 1) else cx.real("x%d_%d" % (j, t), lo=0, hi=maxp[j])) for t in range(T)] for j in range(n)]
     M = np.empty((n, T), dtype=object if cx.mode == "sym" else float)
     for j in range(n):
         for t in range(T):
@@ -160,7 +172,8 @@ def h_site(cx, site, basic, T, concrete_caps=False):
     cones = cx.cones if cx.mode == "sym" else []
     cx.cones = None
     if cx.mode == "sym":
-        cx.check("one_cone_per_constraint_and_period", len(cones) == len(names) * T, note="%d cones for %d constraints x %d periods" % (len(cones), len(names), T))
+        Tsym = 1 if only_last else T  # comparisons on the all-zero (concrete) periods are decided without the solver and are not recorded
+        cx.check("one_cone_per_constraint_and_period", len(cones) == len(names) * Tsym, note="%d cones for %d constraints x %d symbolic periods" % (len(cones), len(names), Tsym))
         dirs = [math.radians(d) for d in range(0, 360, 30)]
         cone_terms = []
         for re, im, L, strict in cones:
@@ -283,6 +296,12 @@ def jobs(tier):
                 js.append(Job("site[%s,basic=%d,T=%d]" % (site, basic, T), h_site, dict(site=site, basic=basic, T=T), functions=FUNCS, timeout=3000,
                               bounds=dict(site=site, evse_type="BASIC" if basic else "AeroVironment/ClipperCreek", periods=T, capacities="symbolic in [1, 2000] kW",
                                           schedule="0 <= x <= station max pilot"), cost=10 * T))
+    for site in (("jpl",) if q else ("caltech", "jpl", "office001")):
+        js.append(Job("site[%s,basic=0,T=1,reloaded_from_json]" % site, h_site, dict(site=site, basic=False, T=1, reload=True), functions=FUNCS + ["acnportal.acnsim.base.BaseSimObj.to_json/from_json", "acnportal.acnsim.network.charging_network.ChargingNetwork._to_dict/_from_dict"], timeout=3000,
+                      bounds=dict(site=site, periods=1, capacities="symbolic in [1, 2000] kW", history="network written with to_json() and read back before the queries"), cost=20))
+    for site, T in ((("office001", 257),) if q else (("office001", 257), ("caltech", 300), ("jpl", 513))):
+        js.append(Job("site[%s,basic=0,T=%d,only_last_period_loaded]" % (site, T), h_site, dict(site=site, basic=False, T=T, only_last=True), functions=FUNCS, timeout=3000,
+                      bounds=dict(site=site, periods=T, capacities="symbolic in [1, 2000] kW", schedule="zero in periods 0..T-2, 0 <= x <= station max pilot in the last period"), cost=30))
     if not q:
         for site in ("caltech", "jpl", "office001"):
             js.append(Job("site[%s,default_caps,T=1]" % site, h_site, dict(site=site, basic=False, T=1, concrete_caps=True), functions=FUNCS, timeout=3000,
